@@ -164,6 +164,7 @@ def finish(args, P, results, bounded, known, ax_n, t0, seed):
         "bounded_stand_ins": [{k: v for k, v in b.items() if k not in ("violations", "trace")} for b in bounded],
         "builtin_axiom_instances_checked": ax_n,
         "explanation": P.explanation,
+        "proof_targets_of_the_thorough_tier_only": (list(getattr(P, "prove_thorough", [])) if args.tier == "quick" else []),
     }
     # exploration-style counters for bounded parts (measured)
     ev = sum(b.get("evaluations", 0) for b in bounded)
